@@ -93,6 +93,13 @@ def is_transparent(callee):
     return any(r.match(callee) for r in _TRANSPARENT)
 
 
+def strip_through(t):
+    """The receiver behind a combinator's pass-through arm."""
+    while isinstance(t, tuple) and t and t[0] == "through":
+        t = t[2]
+    return t
+
+
 def _fold_bin(op, a, b):
     """Arithmetic on two integer literals is that literal (named constants, `N - 1`); anything else stays symbolic."""
     if a[0] == "const" and b[0] == "const" and isinstance(a[1], int) and isinstance(b[1], int) and \
@@ -194,6 +201,11 @@ class Origins:
         """Payload projection applied to a *known* Option/Result aggregate (an `Ok(x)` built in this body or in an
         inlined helper and then taken apart again, e.g. by `?`): the payload itself; the other variant is infeasible."""
         pair = self._PAYLOAD_OF.get(label)
+        if pair is not None and t[0] == "through":
+            want = pair[0].split("::")[-1]
+            if t[1] == want:
+                return {t[2]}       # the receiver's own payload of that variant (payloads are transparent)
+            return set()            # the other variant's payload does not exist on this path
         if pair is None or t[0] != "agg":
             return None
         if t[1] == pair[0] and len(t[2]) == 1:
@@ -233,6 +245,10 @@ class Origins:
                     return ("oneof", sub) if len(sub) != 1 else next(iter(sub))
                 except (ValueError, IndexError):
                     pass
+        if t[0] == "closure" and label.isdigit() and int(label) < len(t[2]):
+            # a captured value read back out of a closure value built in this body (spliced closure bodies)
+            sub = t[2][int(label)]
+            return ("oneof", sub) if len(sub) != 1 else next(iter(sub))
         if t[0] == "enumitem":
             if label == "1":
                 return ("elem", t[1])
@@ -316,6 +332,22 @@ class Origins:
             return {("agg", rv["ak"], ops, ())}
         if k == "repeat":
             return {("repeat",) }
+        if k == "through":
+            # pass-through arm of a normalised combinator: the receiver, known to be `variant` here
+            out = set()
+            fam = {"None": "Some", "Some": "None", "Ok": "Err", "Err": "Ok"}
+            for t in self.of_operand(rv["op"], depth):
+                if t[0] == "through":
+                    if t[1] == rv["variant"]:
+                        out.add(t)
+                    # a value known to be the other variant cannot take this arm: infeasible, dropped
+                    continue
+                if t[0] == "agg" and t[1].split("::")[-1] in fam and t[1].startswith(rv["adt"] + "::"):
+                    if t[1].split("::")[-1] == rv["variant"]:
+                        out.add(t)
+                    continue
+                out.add(("through", rv["variant"], t))
+            return out
         return {("unknown", rv.get("dbg", k)[:40])}
 
     def _call(self, t, blk, depth):
@@ -417,6 +449,8 @@ def fmt_term(t, depth=0):
     if h == "agg":
         args = ", ".join("|".join(sorted(fmt_term(x, depth + 1) for x in a)) for a in t[2])
         return f"{t[1].split('::', 1)[-1] if '::' in t[1] else t[1]}{{{args}}}"
+    if h == "through":
+        return f"{fmt_term(t[2], depth+1)}[still {t[1]}]"
     if h == "bin":
         return f"{t[1]}({fmt_term(t[2], depth+1)}, {fmt_term(t[3], depth+1)})"
     if h == "un":
@@ -699,7 +733,7 @@ class CallGraph:
 
     def _scan_rv(self, name, rv):
         if rv["k"] == "agg" and rv["ak"] == "closure":
-            if rv["def"] in self.nodes:
+            if rv["def"] in self.nodes and not self.nodes[rv["def"]].j.get("fully_spliced"):
                 self.edges[name].add(rv["def"])
         for key in ("op", "a", "b"):
             if key in rv and isinstance(rv[key], dict):
